@@ -2186,6 +2186,18 @@ func (cs Conditions) inlineTagFilter(tags map[string]TagDetails) ConditionsSet {
 			continue
 		}
 		tagConditionsSet := td.Conditions.InlineTagFilters(tags)
+		if c.SubQuery != "" {
+			// the tag filter belongs to a sub query, so do the conditions of the tag
+			scoped, ok := tagConditionsSet.inSubQuery(c.SubQuery)
+			if !ok {
+				// the tag uses sub queries itself, this can't be expressed
+				for i := range csNew {
+					csNew[i] = append(csNew[i], cc)
+				}
+				continue
+			}
+			tagConditionsSet = scoped
+		}
 		if len(tagConditionsSet) == 0 {
 			// the tag can never match, its negation matches everything
 			tagConditionsSet = ConditionsSet{Conditions{&impossibleCondition}}
@@ -2217,6 +2229,93 @@ func (cs Conditions) inlineTagFilter(tags map[string]TagDetails) ConditionsSet {
 		}
 	}
 	return csNew
+}
+
+// inSubQuery returns a copy of the conditions that applies to the streams of the given sub query
+// instead of the main query. It fails if the conditions use sub queries themselves.
+func (cs ConditionsSet) inSubQuery(subQuery string) (ConditionsSet, bool) {
+	res := make(ConditionsSet, 0, len(cs))
+	for _, c := range cs {
+		cNew := make(Conditions, 0, len(c))
+		for _, cc := range c {
+			switch ccc := cc.(type) {
+			case *TagCondition:
+				if ccc.SubQuery != "" {
+					return nil, false
+				}
+				n := *ccc
+				n.SubQuery = subQuery
+				cNew = append(cNew, &n)
+			case *FlagCondition:
+				n := *ccc
+				n.SubQueries = make([]string, len(ccc.SubQueries))
+				for i, sq := range ccc.SubQueries {
+					if sq != "" {
+						return nil, false
+					}
+					n.SubQueries[i] = subQuery
+				}
+				cNew = append(cNew, &n)
+			case *HostCondition:
+				n := *ccc
+				n.HostConditionSources = make([]HostConditionSource, len(ccc.HostConditionSources))
+				for i, hcs := range ccc.HostConditionSources {
+					if hcs.SubQuery != "" {
+						return nil, false
+					}
+					hcs.SubQuery = subQuery
+					n.HostConditionSources[i] = hcs
+				}
+				cNew = append(cNew, &n)
+			case *NumberCondition:
+				n := *ccc
+				n.Summands = make([]NumberConditionSummand, len(ccc.Summands))
+				for i, sm := range ccc.Summands {
+					if sm.SubQuery != "" {
+						return nil, false
+					}
+					sm.SubQuery = subQuery
+					n.Summands[i] = sm
+				}
+				cNew = append(cNew, &n)
+			case *TimeCondition:
+				n := *ccc
+				n.Summands = make([]TimeConditionSummand, len(ccc.Summands))
+				for i, sm := range ccc.Summands {
+					if sm.SubQuery != "" {
+						return nil, false
+					}
+					sm.SubQuery = subQuery
+					n.Summands[i] = sm
+				}
+				cNew = append(cNew, &n)
+			case *DataCondition:
+				n := *ccc
+				n.Elements = make([]DataConditionElement, len(ccc.Elements))
+				for i, e := range ccc.Elements {
+					if e.SubQuery != "" {
+						return nil, false
+					}
+					e.SubQuery = subQuery
+					vars := make([]DataConditionElementVariable, len(e.Variables))
+					for j, v := range e.Variables {
+						if v.SubQuery != "" {
+							return nil, false
+						}
+						v.SubQuery = subQuery
+						vars[j] = v
+					}
+					e.Variables = vars
+					n.Elements[i] = e
+				}
+				cNew = append(cNew, &n)
+			default:
+				cNew = append(cNew, cc)
+			}
+		}
+		res = append(res, cNew)
+	}
+	return res, true
 }
 
 func (cs ConditionsSet) InlineTagFilters(tags map[string]TagDetails) ConditionsSet {
